@@ -130,8 +130,8 @@ fn run_case(rng: &mut Rng, mode: &str, release: bool) -> String {
     let timeouts = Timeouts { mailbox_response: Duration::from_millis(2), mailbox_echo: Duration::from_millis(2), wait_loop_delay: Duration::from_millis(0), ..Timeouts::default() };
     let md: &'static MainDevice<'static> = Box::leak(Box::new(MainDevice::new(pl, timeouts, MainDeviceConfig::default())));
     md.verif_set_network(1, 0);
-    let mlen: u16 = match rng.below(5) { 0 => 16 + rng.below(8) as u16, 1 => 1024, _ => rng.range(24, 300) as u16 };
-    let wmlen: u16 = match rng.below(4) { 0 => rng.range(16, mlen as u64) as u16, 1 => mlen + rng.range(1, 64) as u16, _ => mlen };
+    let mlen: u16 = match rng.below(5) { 0 => 16 + rng.below(8) as u16, 1 => 1024, 2 if mode == "adv" => rng.range(6, 15) as u16, _ => rng.range(24, 300) as u16 };
+    let wmlen: u16 = match rng.below(4) { 0 => rng.range(16, mlen.max(16) as u64) as u16, 1 => mlen + rng.range(1, 64) as u16, _ => mlen };
     let sd0 = verif::subdevice_with_mailbox(0x1000, (WR, wmlen), (RD, mlen), rng.chance(1, 2));
     let group: SubDeviceGroup<1, 8, ethercrab::DefaultLock, Op, NoDc> = SubDeviceGroup::verif_new([sd0].into_iter(), 0, 0, 0);
     let idx = rng.edgy(16) as u16;
@@ -141,12 +141,13 @@ fn run_case(rng: &mut Rng, mode: &str, release: bool) -> String {
     let tn = if rng.chance(3, 4) && SIZES.contains(&n) { n } else { *rng.pick(&SIZES) };
     let op = if mode == "adv" { rng.below(5) } else { match rng.below(10) { 0 => 1, 1 => 2, 2 => 3, 3 => 4, _ => 0 } };
     // 0 read, 1 write, 2 write_array, 3 read_array, 4 sdo_info list / quantities
-    let kind = if mode == "adv" { 100 + rng.below(12) } else { rng.below(12) };
+    let kind = if mode == "adv" { let k = rng.below(17); 100 + if k >= 14 { 11 } else { k } } else { rng.below(12) };
     // faithful kinds: 0..5 plain, 6 abort, 7 emergency, 8 wrong object, 9 stale data first, 10 segment command 3, 11 first data in initiate response
     let upload_mode = rng.below(3);      // 0 expedited when possible, 1 normal when it fits, 2 segmented
     let seg_sizes: Vec<usize> = (0..600).map(|_| match rng.below(4) { 0 => rng.range(1, 6) as usize, 1 => 7, _ => rng.range(1, (mlen as usize).saturating_sub(9).max(1) as u64) as usize }).collect();
     let abort_code = *rng.pick(&[0x05030000u32, 0x06010000, 0x06020000, 0x06090011, 0x08000000, 0x12345678]);
     let mut adv_rng = Rng::new(rng.next());
+    let sticky: (u16, u8, bool, u32, usize, Vec<u8>) = (*rng.pick(&[3u16, 4, 9, 10, 10, 10, 11, 12]), *rng.pick(&[0u8, 1, 6, 7, 7, 7]), rng.chance(1, 8), if rng.chance(3, 4) { tn as u32 } else { *rng.pick(&[5u32, 40, 600, 70000]) }, rng.below(3) as usize, rng.bytes(12));
     let mut seg_pos = 0usize;
     let mut seg_i = 0usize;
     let objc = obj.clone();
@@ -163,7 +164,7 @@ fn run_case(rng: &mut Rng, mode: &str, release: bool) -> String {
             // adversarial: start from a plausible reply, then damage it
             let mut r = match adv_rng.below(5) {
                 0 => expedited_reply(counter, ridx, rsub, &objc[..objc.len().min(4)]),
-                1 => normal_reply(counter, ridx, rsub, objc.len() as u32, &objc[..objc.len().min(mlen as usize - 16)]),
+                1 => normal_reply(counter, ridx, rsub, objc.len() as u32, &objc[..objc.len().min((mlen as usize).saturating_sub(16))]),
                 2 => segment_reply(counter, adv_rng.chance(1, 2), adv_rng.chance(1, 3), &objc[..objc.len().min(9)], 0),
                 3 => { let mut r = mbx_hdr(8 + 10, counter); r.extend_from_slice(&[0x00, 0x80, 0x02 | ((adv_rng.chance(1, 2) as u8) << 7), 0, 0, 0]); r.extend_from_slice(&adv_rng.bytes(12)); r }
                 _ => { let l = adv_rng.range(0, 40) as usize; adv_rng.bytes(l) }
@@ -180,6 +181,19 @@ fn run_case(rng: &mut Rng, mode: &str, release: bool) -> String {
                 8 => { r = segment_reply(counter, false, false, &[], 0); if r.len() > 1 { r[0] = 3; } }    // endless empty segments
                 9 => { r = { let mut x = mbx_hdr(8 + 4, counter); x.extend_from_slice(&[0x00, 0x80, 0x82, 0, 1, 0, 1, 0, 2, 0]); x }; }  // endless fragments
                 10 => { r = { let mut x = mbx_hdr(8, counter); x.extend_from_slice(&[0x00, 0x80, 0x04, 0, 0, 0]); x }; }  // other op code forever
+                11 | 12 => {
+                    // a segmented upload whose every segment is the same template: length field 3..12, any
+                    // "unused bytes" count, mostly not the last one
+                    if service == 2 && (cmdbyte >> 5) == 2 {
+                        r = normal_reply(counter, ridx, rsub, sticky.3, &objc[..objc.len().min(sticky.4).min((mlen as usize).saturating_sub(16))]);
+                    } else {
+                        let mut x = mbx_hdr(sticky.0, counter);
+                        x.extend_from_slice(&[0x00, 0x30]);
+                        x.push((sticky.2 as u8) | (sticky.1 << 1) | (cmdbyte & 0x10));
+                        x.extend_from_slice(&sticky.5);
+                        r = x;
+                    }
+                }
                 _ => {}
             }
             reps.push(r);
